@@ -197,10 +197,25 @@ class CompShape:
 
     def __init__(self, comp: ast.AST) -> None:
         self.comp = comp
+        self.flatten = False
+        self.filter_expr = None
         self.ok = isinstance(comp, (ast.ListComp, ast.GeneratorExp, ast.SetComp, ast.DictComp)) and len(comp.generators) == 1
+        if not self.ok and isinstance(comp, (ast.ListComp, ast.GeneratorExp, ast.SetComp)) and len(comp.generators) == 2:
+            # [x for xs in outer if keep(xs) for x in xs]: the flattening of the (filtered) outer iterable - presented as the
+            # one-generator shape over `outer` whose element is the inner iterable, with flatten=True (like an extend loop)
+            g0, g1 = comp.generators
+            if isinstance(g0.target, ast.Name) and isinstance(g1.target, ast.Name) and is_name(g1.iter, g0.target.id) and not g1.ifs and is_name(comp.elt, g1.target.id) and not g0.is_async and not g1.is_async:
+                self.ok = True
+                self.flatten = True
+                self.iter, self.target, self.filtered = g0.iter, g0.target, bool(g0.ifs)
+                self.is_async, self.is_dict = False, False
+                self.elt, self.key, self.value = ast.copy_location(ast.Name(id=g0.target.id, ctx=ast.Load()), comp.elt), None, None
+                self._ifs = list(g0.ifs)
+                return
         if not self.ok:
             return
         g = comp.generators[0]
+        self._ifs = list(g.ifs)
         self.iter = g.iter
         self.target = g.target
         self.filtered = bool(g.ifs)
